@@ -68,6 +68,16 @@ def build_harness(bin_name):
     lock = os.path.join(h, "Cargo.lock")
     if not os.path.exists(lock):
         shutil.copy(os.path.join(REPO, "Cargo.lock"), lock)
+    if REPO != "/repo":
+        # a scratch tree given through VERIF_REPO (seeded-change trials): build a private copy of the crate
+        # whose path dependencies point at that tree (the committed crate is never touched)
+        h2 = os.path.join(CACHE, "harness-" + os.path.basename(TARGET))
+        shutil.rmtree(h2, ignore_errors=True)
+        os.makedirs(h2)
+        shutil.copytree(os.path.join(h, "src"), os.path.join(h2, "src"))
+        shutil.copy(lock, os.path.join(h2, "Cargo.lock"))
+        open(os.path.join(h2, "Cargo.toml"), "w").write(open(os.path.join(h, "Cargo.toml")).read().replace('"/repo/', '"%s/' % REPO))
+        h = h2
     p = sh(["cargo", "build", "--offline", "--bin", bin_name], cwd=h, env=cargo_env(), check=False,
            timeout=3000)
     if p.returncode != 0:
